@@ -1,9 +1,9 @@
 ----------------------------- MODULE MC_Duration -----------------------------
 EXTENDS DurationMachine, MC_Duration_sets, TLC, Json
 NoCands == {}
-MCRoundOpts == {o \in [lg : {"day", "hour", "minute", "second", "nanosecond", "absent"}, sm : {"day", "hour", "minute", "second", "millisecond", "nanosecond"}, inc : {1, 2, 3, 5, 8, 30}, mode : {"halfExpand", "ceil", "floor", "trunc", "halfEven", "halfTrunc"}] :
+MCRoundOpts == {o \in [lg : {"day", "hour", "minute", "second", "nanosecond", "absent"}, sm : {"day", "hour", "minute", "second", "millisecond", "nanosecond"}, inc : {1, 2, 3, 5, 8, 30, 250000, 1000000000}, mode : {"halfExpand", "ceil", "floor", "trunc", "halfEven", "halfTrunc"}] :
                   /\ (o.lg = "absent" \/ UnitLe(o.sm, o.lg)) /\ (o.lg = "absent" => o.mode \in {"halfExpand", "trunc"})
-                  /\ (o.sm = "hour" => o.inc \in {1, 2, 3, 8}) /\ (o.sm = "day" => o.inc \in {1, 2, 5})
+                  /\ (o.sm = "hour" => o.inc \in {1, 2, 3, 8}) /\ (o.sm = "day" => o.inc \in {1, 2, 5, 250000, 1000000000}) /\ (o.inc >= 250000 => o.sm = "day" /\ o.lg = "day")
                   \* (8 h: three multiples a day - the parity of a multiple differs between the day and the total)
                   /\ (o.inc \in {3, 8} => o.sm = "hour")
                   /\ (o.sm = "millisecond" => o.inc \in {1, 2, 5}) /\ (o.sm = "nanosecond" => o.inc \in {1, 2, 5})}
